@@ -126,7 +126,7 @@ def global_aliases(P, f, T, watch):
                 for t in n.targets:
                     if isinstance(t, ast.Name):
                         pairs.append((t.id, n.value))
-            elif isinstance(n, (ast.For, ast.comprehension)) and _is_ref_expr(n.iter):
+            elif isinstance(n, ast.For) and _is_ref_expr(n.iter):
                 for t in ast.walk(n.target):
                     if isinstance(t, ast.Name):
                         pairs.append((t.id, n.iter))
